@@ -428,7 +428,11 @@ func (s *SIP) ParseHeader(header []byte) (err error) {
 	if header[0] == '\t' || header[0] == ' ' {
 
 		header = bytes.TrimSpace(header)
-		s.Headers[s.lastHeaderParsed][len(s.Headers[s.lastHeaderParsed])-1] += fmt.Sprintf(" %s", string(header))
+		last := s.Headers[s.lastHeaderParsed]
+		if len(last) == 0 {
+			return fmt.Errorf("invalid SIP header continuation line without a preceding header: '%s'", string(header))
+		}
+		last[len(last)-1] += fmt.Sprintf(" %s", string(header))
 		return
 	}
 
@@ -439,7 +443,10 @@ func (s *SIP) ParseHeader(header []byte) (err error) {
 		headerName := strings.ToLower(string(bytes.Trim(header[:index], " ")))
 		headerValue := string(bytes.Trim(header[index+1:], " "))
 
-		// Add header to object
+		// Add header to object (a SIP not made by NewSIP has no map yet)
+		if s.Headers == nil {
+			s.Headers = make(map[string][]string)
+		}
 		s.Headers[headerName] = append(s.Headers[headerName], headerValue)
 		s.lastHeaderParsed = headerName
 
